@@ -136,13 +136,34 @@ BOUND_OF = ["pin_bound_exp_ulps", "pin_bound_sigmoid_ulps", "pin_bound_tanh_ulps
 SOFTMAX_TOL = ("1", "100000")
 
 
+# Literals used ONLY to generate inputs (thresholds whose neighbours are probed) and as the documented bounds when a
+# pin cannot be re-extracted from the source.  A missing pin is a translator problem: it is recorded, the theorems
+# over it are reported as unchecked, and the search for a failing input still runs with these values.
+PIN_DEFAULTS = {
+    "pin_exp_overflow": "104.0", "pin_exp_underflow": "-104.0",
+    "pin_tanh_cutoff": "9.02", "pin_tanh_tiny": "0.0004", "pin_tanh_small": "0.55", "pin_sin_large": "48000.0",
+    "pin_bound_exp_ulps": "1.0", "pin_bound_sigmoid_ulps": "4.0", "pin_bound_tanh_ulps": "3.0",
+    "pin_bound_erf_abs": "6.631017e-7", "pin_bound_sin_abs": "3e-7", "pin_bound_cos_abs": "5e-7",
+}
+
+
 def read_pins():
+    """Values of the pins that were re-extracted (from the regenerated Pins.v); (values, names that fell back to a default)."""
     vals = {}
-    for l in open(os.path.join(vf.COQ, GROUP, "Pins.v")):
-        m = re.match(r"Definition (\w+) : \(Z \* Z\)%type := \((-?\d+), (\d+)\)%Z\.", l)
-        if m:
-            vals[m.group(1)] = (int(m.group(2)), int(m.group(3)))
-    return vals
+    try:
+        for l in open(os.path.join(vf.COQ, GROUP, "Pins.v")):
+            m = re.match(r"Definition (\w+) : \(Z \* Z\)%type := \((-?\d+), (\d+)\)%Z\.", l)
+            if m:
+                vals[m.group(1)] = (int(m.group(2)), int(m.group(3)))
+    except OSError:
+        pass
+    defaulted = []
+    for name, lit in PIN_DEFAULTS.items():
+        if name not in vals:
+            n, d = lit_conv(lit).split(", ")
+            vals[name] = (int(n), int(d))
+            defaulted.append(name)
+    return vals, defaulted
 
 
 def f32_bits(x):
@@ -159,7 +180,8 @@ def special_inputs(pins):
     q = lambda n: pins[n][0] / pins[n][1]
     base = [0x00000000, 0x80000000, 0x7f800000, 0xff800000, 0x7fc00000, 0xffc00000, 0x7f800001, 0x7fffffff,
             0x00000001, 0x80000001, 0x007fffff, 0x807fffff, 0x00800000, 0x80800000, 0x7f7fffff, 0xff7fffff,
-            0x3f800000, 0xbf800000, 0x33800000, 0xb3800000]
+            0x3f800000, 0xbf800000, 0x33800000, 0xb3800000,
+            0xffc00001, 0x7fa00000, 0xff800001, 0xffffffff, 0x7fc12345]   # more NaNs: quiet/signalling, both signs, payloads
     near = []
     for v in [q("pin_exp_overflow"), q("pin_exp_underflow"), 88.72284, -87.33655, -103.972, -126.5 * math.log(2) + 0.01,
               q("pin_tanh_cutoff"), q("pin_tanh_tiny"), q("pin_tanh_small"), q("pin_sin_large"), math.pi, math.pi / 2, 2 * math.pi,
@@ -285,10 +307,10 @@ def main(ctx):
                                                        "C19_F54_witness", "C19_F55_witness"])
     if bad_oracle:
         raise vf.CheckerBroken("the oracle module Props_C19_oracle.v does not compile (it does not depend on the pins)")
-    pins = read_pins()
-    missing = [b for b in BOUND_OF if b not in pins]
-    if missing:
-        raise vf.CheckerBroken("documented accuracy bounds could not be read from the source: %s %s" % (missing, problems))
+    pins, defaulted = read_pins()
+    if defaulted:
+        ctx.notes.append("pins not re-extracted, literal defaults used for input generation / bounds: %s" % ", ".join(defaulted))
+        ctx.log("pins not found in the source (defaults used to generate inputs): %s" % ", ".join(defaulted))
     bindir = ctx.harness(GROUP, profile="release", bins=["c19"])
     rc, out = ctx.run_bin(os.path.join(bindir, "c19"), ["isas"])
     isas = out.split()
@@ -338,7 +360,12 @@ def main(ctx):
     ctx.correspond("vecmath-accuracy", GROUP, REQ, cases, classify=classify, show="show", shard=400,
                    fn_name="documented accuracy bounds (VecMath.VecMathModel oracles)")
     if problems and not ctx.violations:
-        ctx.violation({"kind": "pin-broken", "problems": problems,
-                       "explain": "constants the theorems are stated over could not be re-extracted from the source"}, no_input=True)
+        ctx.violation({"kind": "pin-broken", "problems": problems, "theorems_not_checked": failed,
+                       "build_error": getattr(ctx, "build_error", "")[-1500:],
+                       "searched": "special values (NaN payloads, +-inf, +-0, subnormals, thresholds +-1 ulp) and the ULP / absolute-error "
+                                   "sweeps of every function on every ISA",
+                       "explain": "constants the theorems are stated over could not be re-extracted from the source (the code around the "
+                                  "anchor changed), so the theorems no longer speak about the code; no failing input was found"},
+                      no_input=True)
     if failed and not ctx.violations:
         ctx.proof_broken(failed, "the ULP / absolute-error sweeps of this run (%s) on every ISA" % ("2^20 stratified inputs per function" if ctx.quick() else "all 2^32 inputs per function"))
